@@ -86,10 +86,12 @@ pub struct Rec<'a> {
 	pub max_depth: u32,
 	pub read_bytes: u64,
 	pub underflow: bool,
+	/// record announced allocation sizes (off while the heap use of the decode is being measured)
+	pub record: bool,
 }
 impl<'a> Rec<'a> {
 	pub fn new(data: &'a [u8], known: bool) -> Self {
-		Rec { data, pos: 0, known, allocs: vec![], depth: 0, max_depth: 0, read_bytes: 0, underflow: false }
+		Rec { data, pos: 0, known, allocs: vec![], depth: 0, max_depth: 0, read_bytes: 0, underflow: false, record: true }
 	}
 }
 impl Input for Rec<'_> {
@@ -118,7 +120,9 @@ impl Input for Rec<'_> {
 		}
 	}
 	fn on_before_alloc_mem(&mut self, size: usize) -> Result<(), Error> {
-		self.allocs.push(size);
+		if self.record {
+			self.allocs.push(size);
+		}
 		Ok(())
 	}
 }
@@ -237,4 +241,15 @@ impl Input for DynIn<'_> {
 	fn on_before_alloc_mem(&mut self, size: usize) -> Result<(), Error> {
 		self.0.on_before_alloc_mem(size)
 	}
+}
+
+/// decode over an unknown-length input without any bookkeeping allocations of the harness
+pub fn dec_unknown_quiet<T: Decode>(bs: &[u8]) -> DRes<T> {
+	let mut rec = Rec::new(bs, false);
+	rec.record = false;
+	guard(|| {
+		let r = T::decode(&mut rec).ok();
+		let pos = rec.pos;
+		r.map(|v| (v, pos))
+	})
 }
